@@ -313,19 +313,19 @@ def directed_traces(ctx, mode, shards, env=None):
     return files
 
 
-def transfer_family(ctx, design=True):
+def transfer_family(ctx, design=True, pr=False):
     """Transfer.tla engine slice: exhaustive TLC (quick constants) + TLC-simulated environment schedules
     replayed content-keyed on real associations."""
     binp = ctx.harness()
     if design:
         ctx.tlc_design("MC_Transfer", "MC_Transfer_quick.cfg", timeout=900, heap="14g")
-    out = ctx.scr.mkdir("xr")
+    out = ctx.scr.mkdir("xrpr" if pr else "xr")
     for shape, cfg in ((1, "MC_Transfer_sim.cfg"), (2, "MC_Transfer_sim2.cfg"), (3, "MC_Transfer_sim3.cfg")):
         if ctx.quick and shape == 3:
             continue
         path, nb = tlc_behaviours(ctx, "MC_Transfer", cfg, 400 if ctx.quick else 6000, 60, seed=ctx.seed * 10 + shape,
                                   cap=120 if ctx.quick else 3000)
-        ps = L.run_shards(binp, "xfer-replay", out, 4, {"VF_IN": path, "VF_SHAPE": shape, "VF_NSHARDS": 4})
+        ps = L.run_shards(binp, "xfer-replay", out, 4, {"VF_IN": path, "VF_SHAPE": shape, "VF_NSHARDS": 4, "VF_PR": 1 if pr else 0})
         for p in ps:
             if p.returncode != 0:
                 raise L.MachineryError("xfer-replay failed: " + (p.stdout + p.stderr)[-2000:])
@@ -333,7 +333,7 @@ def transfer_family(ctx, design=True):
         ctx.distinct.add(("transfer-schedules", shape))
         if len(ctx.samples) < 4:
             ctx.samples.append({"transfer_schedule": open(path).readline()[:600]})
-    return sorted(glob.glob(os.path.join(out, "xr-*.ndjson")))
+    return sorted(glob.glob(os.path.join(out, "xrpr-*.ndjson" if pr else "xr-*.ndjson")))
 
 
 ALL_PROFILES = ["basic", "lossy", "reorder", "zwin", "pr", "wrap", "il", "tiny", "clean"]
@@ -360,6 +360,7 @@ def c05(ctx):
 def c06(ctx):
     recv_component(ctx, "C06")
     files = xfer_traces(ctx, ["pr", "pr", "lossy", "reorder", "il"], 160, 4000)
+    files += transfer_family(ctx, design=False, pr=True)   # Transfer.tla environment schedules under partial reliability
     ctx.validate(files)
 
 
@@ -386,6 +387,7 @@ def c07(ctx):
     reasm_component(ctx, "C07", replay=not ctx.quick)
     files = xfer_traces(ctx, ["pr", "pr", "pr", "lossy", "il"], 120, 5000)
     files += directed_traces(ctx, "prdir", 8 if ctx.quick else 16, {"VF_FULL": "0" if ctx.quick else "1"})
+    files += transfer_family(ctx, design=False, pr=True)   # Transfer.tla environment schedules under partial reliability
     ctx.exhaustive = True
     ctx.notes.append("prdir: every set of <= 2 dropped (message, fragment) first transmissions over 3 message shapes x ordered/unordered x DATA/I-DATA "
                      "(+ lost FORWARD-TSN, differently configured receiver, mixed ordering variants) is enumerated")
